@@ -9,6 +9,7 @@ from .nlpprop import ASSUMPTIONS
 from . import c10
 
 TRUSTED = [
+    "one third of the histories run on a sub-stage hosted by a master Ocp (edits on the stage, queries on the master)",
     "generic Rocq state machine Mech/History.v (specification, flag, cached NLP) with its invariant; tied to /repo by "
     "(a) the transcription flag ocp.is_transcribed after every operation of generated histories and (b) the NLP of the "
     "evolved OCP against the NLP of a freshly written OCP with the final specification (both transcribed by rockit)",
@@ -126,11 +127,24 @@ def worker(args):
         return orig(self, name, *a)
     ca.Opti.solver = spy
     try:
-        with contextlib.redirect_stdout(io.StringIO()), contextlib.redirect_stderr(io.StringIO()):
+        from ..common import time_limit
+        with time_limit(120), contextlib.redirect_stdout(io.StringIO()), contextlib.redirect_stderr(io.StringIO()):
             case0 = dict(case0, quad=list(case_final.get("quad", [])))   # integrands of later add_objective calls
-            B = CS.build_rockit(case0, rockit, with_solver=False)
+            hosted = bool(case0.get("hosted"))
+
+            def build(case):
+                # hosted: the OCP under test is a sub-stage of a master Ocp (edits go to the stage,
+                # solver / solve / jacobian to the master)
+                if hosted:
+                    master = rockit.Ocp()
+                    Bx = CS.build_rockit(case, rockit, with_solver=False, factory=master.stage)
+                    Bx.master = master
+                    return Bx, master
+                Bx = CS.build_rockit(case, rockit, with_solver=False)
+                return Bx, Bx.ocp
+            B, master = build(case0)
             ocp = B.ocp
-            ocp.solver(*SOLVER0)
+            master.solver(*SOLVER0)
             out["inputs"] = engine.impl_inputs(B, case_final) if False else None
             flags = []
             decl0 = None
@@ -141,10 +155,10 @@ def worker(args):
                 elif k == "value":
                     ocp.value(ocp.T)
                 elif k == "jacobian":
-                    ocp.jacobian()
+                    master.jacobian()
                 elif k == "solve":
                     try:
-                        ocp.solve_limited()
+                        master.solve_limited()
                     except RuntimeError as e_:
                         if "Solver failed" not in str(e_) and "return_success" not in str(e_):
                             raise
@@ -183,7 +197,7 @@ def worker(args):
                     last_meth.N += 2
                     last_meth.M += 1
                 elif k == "solver":
-                    ocp.solver(*op[1])
+                    master.solver(*op[1])
                 elif k == "set_T":
                     ocp.set_T(float(Fr(op[1])))
                 elif k == "set_t0":
@@ -205,8 +219,8 @@ def worker(args):
             out["evolved"], out["evolved_again"] = ev, ev2
             out["decl"] = [decl, decl2]
             # a freshly written OCP with the final specification
-            Bf = CS.build_rockit(case_final, rockit, with_solver=False)
-            Bf.ocp.solver(*case_final.get("solver", SOLVER0))
+            Bf, masterf = build(case_final)
+            masterf.solver(*case_final.get("solver", SOLVER0))
             for call in case_final.get("calls", []):
                 apply_call(Bf, Bf.ocp, call)
             fr = observe_nlp(Bf, case_final, points, rockit)
@@ -263,6 +277,8 @@ def gen_cases(seed, n, maxlen):
         gen.add_objective(rng, c, OPTS)
         gen.touch_objective(c)
         c["id"] = "C13-%d-%d" % (seed, i)
+        if i % 3 == 2:
+            c["hosted"] = True      # the OCP is a sub-stage of a master Ocp
         ops, cf = gen_history(rng, c, maxlen)
         pts = [gen.gen_point(rng, cf) for _ in range(2)]
         out.append((c, ops, cf, pts))
